@@ -215,6 +215,8 @@ theorem Chain.inboundData {e : Ev} {w : Bool} {a : Agent} (hc : a.closed = false
   simp only [] at h1 ⊢
   split
   · exact h1
+  split
+  · exact h1
   · have h2 : Evo b { b with rx := b.rx ++ [len] } := Same.evo rfl
     refine h1.trans (Chain.ofEvo ?_)
     repeat' split
